@@ -158,6 +158,7 @@ def check(run):
 
     # ------------------------------------------------------------------ R3 visuals
     _visuals(run, ix, ef)
+    _submesh_selection(run, ix)
 
     # ------------------------------------------------------------------ R2 closed writer set
     n_w = 0
@@ -342,6 +343,61 @@ def check(run):
         "of an existing mesh, of the merge key construction and of the stacking offsets. A necessary condition of C07 for all masks and "
         "meshes; triangle positions, order preservation, split/concatenate multiset equality and merge tolerance are not decided.",
     }
+
+
+def _submesh_selection(run, ix):
+    """R7: util.submesh keeps, for every group of faces, exactly the vertices those faces reference - on every path.  The
+    visual of the group is cut by `visual.face_subset(index)`, which keeps per-vertex colours / uv for the referenced
+    vertices only; a path that keeps any other vertex set (all vertices for a 'whole mesh' group, say) hands the new mesh
+    vertex data of another length and order than its vertices."""
+    from ..dag import Values
+    run.rule("R7", "util.submesh: the vertices kept for a group are `vertices[unique(faces[index])]` on every path - the same set visual.face_subset keeps "
+                   "per-vertex data for")
+    f0 = ix.func("trimesh.util:submesh")
+    f = ix.inlined(f0)
+    V = Values(ix, f)
+    subsets = [c for c in ast.walk(f.node) if isinstance(c, ast.Call) and isinstance(c.func, ast.Attribute) and c.func.attr == "face_subset" and len(c.args) == 1]
+    kept = []
+    for c in ast.walk(f.node):
+        if isinstance(c, ast.Call) and isinstance(c.func, ast.Attribute) and c.func.attr == "append" and len(c.args) == 1:
+            st = V.pv.stmt_of(c)
+            if st is None:
+                continue
+            env = V.match("_e_OV[_e_SEL]", V.value(c.args[0], st))
+            if env is not None and re.fullmatch(r"P_\w+\.vertices(\.view\(numpy\.ndarray\))?", V.text(env["_e_OV"], 4, 200)):
+                kept.append((c, st, env["_e_SEL"]))
+    if len(subsets) != 1 or not kept:
+        run.instance("R7", f0.where, f"submesh: {len(subsets)} face_subset call(s), {len(kept)} vertex selection(s) - shape not recognised, NOT decided", True, nontrivial=False)
+        run.assume("util.submesh: vertex selection / visual subset not in a recognised form")
+        return
+    st_s = V.pv.stmt_of(subsets[0])
+    idx = V.dag._ident(V.value(subsets[0].args[0], st_s)) if st_s is not None else None
+    for c, st, sel in kept:
+        # alternatives of the selection (several reaching definitions / exits of an inlined helper)
+        d = V.dag.defs.get(sel)
+        alts = [V.dag._ident(a) for a in d.args] if isinstance(d, ast.Call) and isinstance(d.func, ast.Name) and d.func.id == "PHI" else [sel]
+        bad = []
+        for a in alts:
+            ok_a = False
+            for tpl in ("numpy.unique(_e_F[_e_I].reshape(-1))", "numpy.unique(_e_F[_e_I].flatten())", "numpy.unique(_e_F[_e_I].ravel())", "numpy.unique(_e_F[_e_I])",
+                        "numpy.unique(_e_F[_e_I].reshape(-1), return_inverse=True)[0]"):
+                env = V.match(tpl, a)
+                if env is not None and re.fullmatch(r"P_\w+\.faces(\.view\(numpy\.ndarray\))?", V.text(env["_e_F"], 4, 200)) and (idx is None or env["_e_I"] == idx):
+                    ok_a = True
+            if not ok_a:
+                bad.append(V.text(a, 3, 90))
+        recognised = len(bad) < len(alts)
+        if not bad:
+            run.instance("R7", f0.where, "submesh keeps `vertices[unique(faces[index])]` for the group that visual.face_subset(index) is cut for", True)
+        elif recognised:
+            run.instance("R7", f0.where, f"submesh keeps vertices by {bad} on some path", False)
+            run.violation("R7", f"{f0.module.rel}:{getattr(c, 'lineno', f0.node.lineno)} {f0.qualname}",
+                          f"on some path util.submesh keeps the vertices selected by `{bad[0]}` instead of the vertices the group's faces reference: "
+                          f"visual.face_subset keeps per-vertex data for the referenced vertices only, so the new mesh gets vertex colours / uv of another "
+                          f"length and order than its vertices", key=key_of("C07-R7", "submesh-selection"))
+        else:
+            run.instance("R7", f0.where, f"submesh vertex selection `{bad[0]}` not in a recognised form - NOT decided", True, nontrivial=False)
+            run.assume("util.submesh: vertex selection not in a recognised form")
 
 
 def _in_loop(cfg, n, loop):
